@@ -114,6 +114,11 @@ def _to_str(s, enc=locale.getpreferredencoding()):'''}]},
      "edits": [{"file": "cnvlib/coverage.py",
                 "old": "    tot_time = max(time.time() - start_time, 1e-6)",
                 "new": "    tot_time = time.time() - start_time"}]},
+    {"id": "c09-bare-p-crash", "property": "C09", "expect": ["D3"],
+     "why": "revert of repair 50a1e6e: a bare -p (processes=0) reaches ProcessPoolExecutor(max_workers=0)",
+     "edits": [{"file": "cnvlib/coverage.py",
+                "old": "    if processes is not None and processes < 1:\n",
+                "new": "    if False:\n"}]},
     {"id": "c09-count-dups", "property": "C09", "expect": ["D1", "D2"],
      "why": "--count no longer drops duplicate-flagged reads",
      "edits": [{"file": "cnvlib/coverage.py",
